@@ -154,7 +154,7 @@ ERR_ENUM = {
     "UndefinedUnitError": "UndefinedUnitError", "DefinitionSyntaxError": "DefinitionSyntaxError",
     "ValueError": "ValueError", "TypeError": "TypeError", "KeyError": "KeyError",
     "RecursionError": "RecursionError", "RedefinitionError": "RedefinitionError",
-    "ZeroDivisionError": "ValueError",
+    "ZeroDivisionError": "ZeroDivisionError",
 }
 
 
